@@ -822,6 +822,110 @@ theorem scanFold_niter (nrAt : F → Except String (NROut F)) :
       omega
 end C11
 
+namespace C11
+/-- first-best: where the result of `scanFold` comes from, with strictness towards everything earlier -/
+theorem scanFold_first (nrAt : F → Except String (NROut F)) :
+    ∀ (l : List F) (best : Option (F × NROut F)) (tot : Nat) (res : Option (F × NROut F)) (tot' : Nat),
+      scanFold nrAt l best tot = .ok (res, tot') → ∀ q s, res = some (q, s) →
+      (best = some (q, s) ∧ ∀ p ∈ l, ∀ r, nrAt p = .ok r → s.f ≤ r.f) ∨
+      (∃ pre post, l = pre ++ q :: post ∧ nrAt q = .ok s ∧ (∀ bp b, best = some (bp, b) → s.f < b.f) ∧
+        (∀ p ∈ pre, ∀ r, nrAt p = .ok r → s.f < r.f) ∧ (∀ p ∈ post, ∀ r, nrAt p = .ok r → s.f ≤ r.f)) := by
+  intro l
+  induction l with
+  | nil =>
+    intro best tot res tot' h q s hres
+    simp only [scanFold, Except.ok.injEq, Prod.mk.injEq] at h
+    left
+    exact ⟨by rw [h.1, hres], by simp⟩
+  | cons p rest ih =>
+    intro best tot res tot' h q s hres
+    simp only [scanFold] at h
+    cases hp : nrAt p with
+    | error e => rw [hp] at h; cases h
+    | ok r =>
+      rw [hp] at h
+      have hpr : ∀ r', nrAt p = .ok r' → r' = r := by
+        intro r' hr'; rw [hp] at hr'; simp only [Except.ok.injEq] at hr'; exact hr'.symm
+      rcases ih _ _ _ _ h q s hres with ⟨hb', hrest⟩ | ⟨pre, post, hl, hq, hb', hpre, hpost⟩
+      · -- the best after `p` is the final result
+        cases best with
+        | none =>
+          simp only [Option.some.injEq, Prod.mk.injEq] at hb'
+          obtain ⟨rfl, rfl⟩ := hb'
+          right
+          exact ⟨[], rest, rfl, hp, by simp, by simp, hrest⟩
+        | some b0 =>
+          obtain ⟨bp, b⟩ := b0
+          simp only at hb'
+          by_cases hlt : r.f < b.f
+          · rw [if_pos hlt] at hb'
+            simp only [Option.some.injEq, Prod.mk.injEq] at hb'
+            obtain ⟨rfl, rfl⟩ := hb'
+            right
+            refine ⟨[], rest, rfl, hp, ?_, by simp, hrest⟩
+            intro bp' b' hbb
+            simp only [Option.some.injEq, Prod.mk.injEq] at hbb
+            rw [← hbb.2]; exact hlt
+          · rw [if_neg hlt] at hb'
+            left
+            refine ⟨hb', ?_⟩
+            simp only [Option.some.injEq, Prod.mk.injEq] at hb'
+            intro p' hp' r' hr'
+            rcases List.mem_cons.mp hp' with rfl | hp'
+            · rw [hpr r' hr', ← hb'.2]; exact not_lt.mp hlt
+            · exact hrest p' hp' r' hr'
+      · -- the result comes from a later scan value
+        right
+        have hsr_b : s.f < r.f ∧ ∀ bp b, best = some (bp, b) → s.f < b.f := by
+          cases best with
+          | none =>
+            simp only at hb'
+            exact ⟨hb' p r rfl, by simp⟩
+          | some b0 =>
+            obtain ⟨bp, b⟩ := b0
+            simp only at hb'
+            by_cases hlt : r.f < b.f
+            · rw [if_pos hlt] at hb'
+              have h1 := hb' p r rfl
+              refine ⟨h1, ?_⟩
+              intro bp' b' hbb
+              simp only [Option.some.injEq, Prod.mk.injEq] at hbb
+              rw [← hbb.2]; exact lt_trans h1 hlt
+            · rw [if_neg hlt] at hb'
+              have h1 := hb' bp b rfl
+              refine ⟨lt_of_lt_of_le h1 (not_lt.mp hlt), ?_⟩
+              intro bp' b' hbb
+              simp only [Option.some.injEq, Prod.mk.injEq] at hbb
+              rw [← hbb.2]; exact h1
+        refine ⟨p :: pre, post, by rw [hl]; rfl, hq, hsr_b.2, ?_, hpost⟩
+        intro p' hp' r' hr'
+        rcases List.mem_cons.mp hp' with rfl | hp'
+        · rw [hpr r' hr']; exact hsr_b.1
+        · exact hpre p' hp' r' hr'
+end C11
+
+/-- **first best**: the reported scan value is the *first* one attaining the smallest NR minimum — every
+earlier scan value has a strictly larger minimum, every later one a larger or equal one. -/
+theorem c11_scan_first_best (nrAt : F → Except String (NROut F)) (p2s : List F) (s : ScanOut F)
+    (h : scan nrAt p2s = .ok s) :
+    ∃ pre post, p2s = pre ++ s.p2 :: post ∧ nrAt s.p2 = .ok s.best ∧
+      (∀ p ∈ pre, ∀ r, nrAt p = .ok r → s.best.f < r.f) ∧ (∀ p ∈ post, ∀ r, nrAt p = .ok r → s.best.f ≤ r.f) := by
+  unfold scan at h
+  cases hf : scanFold nrAt p2s none 0 with
+  | error e => rw [hf] at h; cases h
+  | ok v =>
+    obtain ⟨res, tot⟩ := v
+    rw [hf] at h
+    cases res with
+    | none => cases h
+    | some b =>
+      obtain ⟨q, b⟩ := b
+      simp only [Except.ok.injEq] at h
+      subst h
+      rcases C11.scanFold_first nrAt p2s none 0 _ tot hf q b rfl with ⟨hb, _⟩ | ⟨pre, post, hl, hq, _, hpre, hpost⟩
+      · cases hb
+      · exact ⟨pre, post, hl, hq, hpre, hpost⟩
+
 /-- **when the scan returns**: exactly when there is at least one scan value and the inner minimiser
 succeeds (raises no exception) for every scan value. -/
 theorem c11_scan_ok_iff (nrAt : F → Except String (NROut F)) (p2s : List F) :
@@ -985,6 +1089,26 @@ theorem newtonStep_sign (ev : Eval K) (hpp : 0 < ev.fpp) :
       · exact absurd h hne
     · intro h; left; linarith
 end C11
+
+/-- **flat landscape** (named in the quantifier; excluded from the convex theorems by `f'' > 0`): where
+`f' = f'' = 0` everywhere, NR takes one zero step and reports the initial point as converged. -/
+theorem c11_nr_flat (c : NRCfg K) (obj : K → Eval K) (ns0 : K)
+    (hflat : ∀ x, (obj x).fp = 0 ∧ (obj x).fpp = 0) (hlo : c.nsMin ≤ ns0) (hhi : ns0 ≤ c.nsMax)
+    (hms : 1 < c.maxSteps) (htol : 0 ≤ c.nsTol) (hthr : 0 ≤ c.slopeThr)
+    (hkeep : keepGoing c (c.nsTol + 1) c.fp0 = true) :
+    ∃ o, nr c obj ns0 = .ok o ∧ o.x = ns0 ∧ o.f = (obj ns0).f ∧ o.flag = 0 ∧ o.niter = 1 ∧ o.lastStep = 0 := by
+  obtain ⟨m, hm⟩ : ∃ m, c.maxSteps = m + 2 := ⟨c.maxSteps - 2, by omega⟩
+  have hstep : newtonStep (obj ns0) = 0 := by simp [newtonStep, hflat ns0]
+  have hout : outward c ns0 (0 : K) = false := by simp [outward]
+  have hclip : clipNs c.nsMin c.nsMax (ns0 + 0) = ns0 := by rw [add_zero]; exact C11.clipNs_id _ _ _ hlo hhi
+  have hstop : keepGoing c (0 : K) (obj ns0).fp = false := by
+    simp [keepGoing, fabs, (hflat ns0).1, not_lt.mpr htol, not_lt.mpr hthr]
+  have hnr : nr c obj ns0 = .ok (NROut.mk ns0 (obj ns0).f 0 1 0 (obj ns0).fp ns0 false [ns0, ns0]) := by
+    unfold nr
+    rw [if_neg (not_lt.mpr hlo), hm]
+    have hclip' : clipNs c.nsMin c.nsMax ns0 = ns0 := C11.clipNs_id _ _ _ hlo hhi
+    simp [nrLoop, hkeep, hstep, hout, hclip', hstop]
+  exact ⟨_, hnr, rfl, rfl, rfl, rfl, rfl⟩
 
 /-- **forced bound, slope pointing outward**: for an objective with positive curvature, flag −2 means
 "at the lower bound and the objective increases into the interval" (`f' > 0`), flag −1 "at the upper
